@@ -53,6 +53,8 @@ SCHEME_KINDS = {
     'two_b': [spaces.UNIFYING, spaces.PSEUDO_05],
     'one': [spaces.UNIFYING],
     'one_b': [spaces.B3LTB4],
+    'ext': [spaces.UNIFYING, spaces.PSEUDO],
+    'ext1': [spaces.UNIFYING],
 }
 
 
@@ -71,6 +73,31 @@ def select_configs(mode, want):
     return out
 
 
+def ext43_datasets(sh, schemes):
+    """The sub-space DS(3,3)+x, enumerated completely: every dataset of DS(3,3) over elements {1,2,3} that has a
+    component which cannot be all-tied at minimal cost under at least one scheme of the block, extended by a fourth
+    element 0 that is, in each of the three rankings, absent / alone in a new first bucket / alone in a new last
+    bucket (all 27 extension patterns with ext='all27', the 7 patterns of EXT7 otherwise).  This is where a non-trivial component coexists with other components, which no
+    dataset of DS(3,2), DS(3,3) or DS(4,2) offers."""
+    from itertools import product
+    for index, core in spaces.ds_iter_strided(3, 3, sh['shard'], sh['nshards']):
+        core = tuple(tuple(tuple(x + 1 for x in b) for b in r) for r in core)
+        uni = spaces.universe_of(core)
+        if len(uni) < 3:
+            continue
+        if not any(refmodel.nontrivial_components(uni, refmodel.ref_table(uni, core, s[0], s[1])) for s in schemes):
+            continue
+        exts = EXT7 if sh.get('ext') != 'all27' else list(product(range(3), repeat=3))
+        for ext in exts:
+            ds = tuple(r if e == 0 else (((0,),) + r if e == 1 else r + ((0,),)) for r, e in zip(core, ext))
+            yield index * 27 + ext[0] * 9 + ext[1] * 3 + ext[2], ds
+
+
+# the quick tiers use 7 of the 27 extension patterns (0 absent, 1 new first bucket, 2 new last bucket, per ranking):
+# always first, always last, first/first/absent, last/last/absent, absent/first/last, first/last/first, absent/absent/first
+EXT7 = [(1, 1, 1), (2, 2, 2), (1, 1, 0), (2, 2, 0), (0, 1, 2), (1, 2, 1), (0, 0, 1)]
+
+
 def run_block(ctx, sh, mode, configs, oracle, flags=(True, False), per_dataset=None, only=None, ds_filter=None):
     from .lib import mk_dataset, mk_scheme, labels_for, Back
     schemes = SCHEME_KINDS[sh.get('schemes', 'all')] if isinstance(sh.get('schemes', 'all'), str) else sh['schemes']
@@ -78,6 +105,8 @@ def run_block(ctx, sh, mode, configs, oracle, flags=(True, False), per_dataset=N
     labels = labels_for(lname, n)
     if only is not None:
         it = [(0, only)]
+    elif sh.get('space') == 'ext43':
+        it = ext43_datasets(sh, schemes)
     else:
         it = spaces.ds_iter_strided(n, sh['m'], sh['shard'], sh['nshards'])
     for index, ds in it:
@@ -137,6 +166,13 @@ def std_phases(blocks_by_mode):
             continue
         shards = []
         for b in blocks:
+            if b.get('space') == 'ext43':
+                b = dict(b, n=3, m=3)     # striped over the DS(3,3) cores; the datasets have 4 elements
+                sh = ds_shards([b], per=b.get('per', 100), maxk=b.get('maxk', 64), mode=mode)
+                for x in sh:
+                    x['n'] = 4
+                shards.extend(sh)
+                continue
             shards.extend(ds_shards([b], per=b.get('per', 12), maxk=b.get('maxk', 64), mode=mode))
         phases.append({'name': mode, 'cfg': {'mode': mode}, 'shards': shards})
     return phases
